@@ -16,6 +16,20 @@ CHECKS = {
          "Reverse/Chain/CountFrom/RunningChunkBy machines; random larger cases are trace-validated.",
          "Trusts TLC, the JSON export and the replay harness; flows are integer ranges (values identify positions).",
          "DESIGN.md 5 C17"),
+ "C01": ("TLA+ coroutine machine of a Sequence (Flow.tla) = declarative composition Sem (FlowSem.tla) checked by TLC; "
+         "all terminal states replayed on real Sequence/nested Sequence/Source in every bracketing; random programs trace-validated (Trace_Flow.tla)",
+         "TLC checks machine output = left-to-right composition, regrouping, empty identity and build-time rejection for all programs "
+         "<= 2 (thorough 3) stages over a 19-stage alphabet x flows <= 4 x {bare, pairs}; each scenario is executed on the real code in "
+         "every bracketing and as a Source tail; 300+ random deeper programs are validated against Sem by TLC.",
+         "Contexts are abstracted to their top-level keys; harness callables (inc/dbl/tag) stand for user callables.",
+         "DESIGN.md 5 C01"),
+ "C02": ("TLC: the Flow.tla coroutine machine is the laziest allowed schedule (pulls = MinNeed at every delivery, no work before demand, "
+         "buffer bounds, liveness of Slice(n) after an infinite source); real pipelines on an instrumented iterator must never pull more "
+         "than the machine at any delivery / stop point; negative Slice bound through Slice.tla; pull vectors trace-validated",
+         "Exhaustive over streaming programs <= 2 (thorough 3) stages x finite and infinite sources x every consumer stop point; real "
+         "pull counts compared with the machine's at each delivery (inequality), weak-reference liveness for negative Slice.",
+         "The laziest-allowed schedule is the spec machine (islice consumes to stop, Count one look-ahead, Split one block).",
+         "DESIGN.md 5 C02"),
 }
 NOT_YET = "check not built yet in this round (planned, see DESIGN.md section 5)"
 
